@@ -13,6 +13,17 @@ from common import *  # noqa
 PID = "C15"
 IMPORTS = "From GS Require Import model.Sender."
 FRAME = re.compile(r"^N(-?\d+) (.*)\*(\d+)$")
+# the ways firmwares phrase a resend request (Marlin, Repetier, Sprinter, Teacup, ...)
+RESEND_FORMATS = ["Resend: %d", "Resend: %d", "Resend:%d", "rs %d", "rs N%d Expected checksum 67", "Resend: N:%d"]
+
+
+def is_resend_line(t):
+    return t.startswith("Resend") or t.startswith("rs ")
+
+
+def resend_no(t):
+    """the line number a resend request of the fake firmware asks for (its first number)"""
+    return int(re.search(r"-?\d+", t).group(0))
 
 
 def xor(s):
@@ -61,18 +72,18 @@ class FakeMarlin:
             m = FRAME.match(text)
             if not m:
                 if text.startswith("N"):
-                    self._reply("Resend: %d" % self.expected, "ok")
+                    self._reply(FakeMarlin.cfg.get("resend_fmt", "Resend: %d") % self.expected, "ok")
                 else:
                     self._reply("ok")            # unnumbered command (connection chatter)
             else:
                 n, body, cs = int(m.group(1)), m.group(2), int(m.group(3))
                 if xor("N%d %s" % (n, body)) != cs:
-                    self._reply("Resend: %d" % self.expected, "ok")
+                    self._reply(FakeMarlin.cfg.get("resend_fmt", "Resend: %d") % self.expected, "ok")
                 elif body.startswith("M110"):
                     self.expected = int(re.search(r"N(-?\d+)", body).group(1)) + 1
                     self._reply("ok")
                 elif n != self.expected:
-                    self._reply("Resend: %d" % self.expected, "ok")
+                    self._reply(FakeMarlin.cfg.get("resend_fmt", "Resend: %d") % self.expected, "ok")
                 else:
                     self.accepted.append(body)
                     self.expected = n + 1
@@ -242,6 +253,56 @@ def own_commands(lines):
     return out
 
 
+def real_resend_request(line):
+    """what printcore._listen does with one received line: the value resendfrom takes (None = unchanged).  The real read loop
+    is run on a one-line stream."""
+    from gscrib.printrun.printcore import printcore
+    p = printcore()
+    feed = [line, None]
+    p._listen_until_online = lambda: None
+    p._listen_can_continue = lambda: True
+    p._readline = lambda: feed.pop(0)
+    p.resendfrom = -1
+    p._listen()
+    return None if p.resendfrom == -1 else p.resendfrom
+
+
+def resend_correspondence(run):
+    """model/ResendLine.v against the real read loop, on the firmware formats and on hostile variations"""
+    rng = run.rng
+    lines = ["Resend: 12", "Resend:7", "rs 3", "rs N2 Expected checksum 67", "Resend: N:41", "resend 9", "RESEND: 5", "ok", "ok T:210 /210",
+             "Resend: abc 4", "Resend: +6", "Resend: -3 8", "ok Resend: 5", "rsx 5", "Resend:: 007", "Resend: 5.0 6", "Resend: 1e3 2", "rs", "Resend:",
+             "Resend: - 4", "Resend: +-5 6", "Resend: N N:N 13 14", "echo:Resend: 5", "rs\t21", "Resend: 99999999999999999999", "Error:Line Number is not Last Line Number+1, Last Line: 7"]
+    pieces = ["Resend", "resend", "rs", ":", " ", "N", "N:", "12", "0", "-4", "+3", "x", "ok", "7.5", "\t", "Expected", "checksum"]
+    for _ in range(200 if run.thorough else 60):
+        lines.append("".join(rng.choice(pieces) for _ in range(rng.randint(1, 7))))
+    lines = [l for l in lines if "-1" not in l.replace("N", " ").replace(":", " ").split()]
+    body = "Open Scope N_scope.\n"
+    for l in lines:
+        body += "Eval vm_compute in (match resend_request %s with Some z => (1%%Z, z) | None => (0%%Z, 0%%Z) end).\n" % g_codepoints(l)
+    vals = []
+    for rc, out in coq_eval_many(PID, [("resend", body)], "From GS Require Import model.Sender model.JobLines model.ResendLine.\n", timeout=900):
+        if rc != 0:
+            run.log("model evaluation failed:\n" + out[-1500:])
+            run.violation("the model (coq/model/ResendLine.v) could not be evaluated", dict(theorem="C15_resend_formats"), no_input=True)
+            return 0
+        vals.extend(parse_evals(out))
+    if len(vals) != len(lines):
+        run.violation("the model (coq/model/ResendLine.v) could not be evaluated", dict(theorem="C15_resend_formats"), no_input=True)
+        return 0
+    n = 0
+    for l, val in zip(lines, vals):
+        ok_, z = parse_term(val)
+        got = z if ok_ == 1 else None
+        want = real_resend_request(l)
+        if got != want:
+            run.violation("model and implementation disagree on the resend request read from %r: model %r, printcore._listen %r" % (l, got, want),
+                          dict(line=l, theorem="C15_resend_formats (coq/props/C15.v); correspondence: ResendLine.resend_request"), no_input=True)
+            return n
+        n += 1
+    return n
+
+
 def g_codepoints(s):
     return g_list(["%d%%N" % ord(ch) for ch in s])
 
@@ -350,7 +411,7 @@ def classify(cmds, accepted, cfg, events):
         # thread's last job transmission (it had reached the end of its queue on a surplus ok)?  Confirmed against the
         # model afterwards: the whole trace must be a run of model/Sender.v, whose completeness is refuted the same way.
         last_tx = max((i for i, ev in enumerate(events) if ev[0] == "tx" and "M110" not in ev[1]), default=-1)
-        late = [ev for ev in events[last_tx + 1:] if ev[0] == "rx" and ev[1].startswith("Resend") and int(ev[1].split(":")[1]) == len(accepted)]
+        late = [ev for ev in events[last_tx + 1:] if ev[0] == "rx" and is_resend_line(ev[1]) and resend_no(ev[1]) == len(accepted)]
         # ... and the print thread really had reached the end of its queue: it then transmits the trailing M110 N-1
         ended = any(ev[0] == "tx" and "M110" in ev[1] for ev in events[last_tx + 1:])
         if late and ended:
@@ -394,8 +455,8 @@ def g_events(events, ids):
             t = ev[1]
             if t == "ok":
                 out.append("ERx ROk")
-            elif t.startswith("Resend"):
-                out.append("ERx (RResend %s)" % g_Z(int(t.split(":")[1])))
+            elif is_resend_line(t):
+                out.append("ERx (RResend %s)" % g_Z(resend_no(t)))
             # anything else ("Error:..." announcements) is only logged by the listener: not an event of the model
     return g_list(out)
 
@@ -436,7 +497,7 @@ def main():
             return lat * (1 + (_r.Random(seed + i).random() * 2 if jitter else 0))
         scen.append(("random", lines, dict(boot=run.rng.choice([0, 0, 1]), corrupt=corrupt, react=react,
                                            gap=(run.rng.choice([0.0, 0.0, 0.003, 0.02]) if len(corrupt) <= 1 else run.rng.choice([0.0, 0.0, 0.003])),
-                                           error_lines=run.rng.random() < 0.4)))
+                                           error_lines=run.rng.random() < 0.4, resend_fmt=run.rng.choice(RESEND_FORMATS))))
     found = False
     coq = []
     meta = []
@@ -454,7 +515,7 @@ def main():
         jl_wire.append([FRAME.match(e[1]).group(2) for e in evs if e[0] == "tx" and FRAME.match(e[1]) and "M110" not in e[1]] if clean_link else None)
         stats["transmissions"] += sum(1 for e in evs if e[0] == "tx")
         stats["corrupted_transmissions"] += sum(1 for e in evs if e[0] == "tx" and not e[2])
-        stats["resends"] += sum(1 for e in evs if e[0] == "rx" and e[1].startswith("Resend"))
+        stats["resends"] += sum(1 for e in evs if e[0] == "rx" and is_resend_line(e[1]))
         rep = dict(job=lines, boot=cfg["boot"], corrupt=sorted(cfg["corrupt"]), corrupt_first_of=sorted(cfg.get("corrupt_first_of", [])), gap=cfg["gap"],
                    wire=[list(e) for e in evs][:3000], accepted=res["accepted"])
         run.count((kind, tuple(lines), tuple(sorted(cfg["corrupt"])), cfg["boot"]), len(cmds) >= 3)
@@ -562,6 +623,7 @@ def main():
                       dict(correspondence="check_trace (model/Sender.v) vs printcore over the fake firmware", first=rep,
                            theorems=["C15_safety", "C15_numbering", "C15_resend", "C15_complete_clean"]), no_input=True)
     stats["job_line_readings_compared"] = job_lines_correspondence(run, jl_jobs, jl_wire)
+    stats["resend_lines_compared"] = resend_correspondence(run)
     proof_broken_violation(run, st, found)
     run.cov["rule"] = ("the real printcore (connect, startprint over gcoder.GCode, print/read threads) streams print-like jobs (extruding layers, Z "
                        "changes, Z-hops, non-extruding tails, comment-only and blank lines) to a fake serial.Serial with a Marlin-style "
